@@ -62,6 +62,10 @@ class ComposedResponse(ComposedMessage):
 		if self.request.method == u'HEAD':
 			response.body = None  # RFC 2616 Section 9.4
 
+		if self.request.method == u'HEAD' or status < 200 or status in (204, 304):
+			# no message body at all (RFC 7230 Section 3.3.3): not even the last-chunk of a chunked body
+			response.body.chunked = False
+
 	def prepare_ranges(self) -> bool:
 		if not all(self.range_conditions()):
 			return False
